@@ -1,1 +1,424 @@
--- property theorems for C20 (stub)
+/-
+C20 — programs end when work is done; pinned objects stay bounded.  Property theorems about `JanetModel.Loop`.
+
+All statements quantify over every configuration and every event sequence (every schedule, completion order, cancel /
+close / GC interleaving) the model can take from the initial state; proofs are by induction over the sequence.
+-/
+import JanetModel.Loop.Model
+
+namespace JanetModel.Props.C20
+open JanetModel.Loop
+
+/-! ## tie to the source: the generated tables are the ones the model mirrors -/
+
+/-- the loop-termination test is `!(run queue non-empty || tq_count || listener_count)` -/
+theorem done_expr_match : Gen.Loop.doneTerms = doneSpec := by decide
+
+/-- every site that increments / decrements listener_count is one the model has a transition for (same guards) -/
+theorem counter_sites_match : Gen.Loop.counterSites = siteSpec := by decide
+
+/-- poll phase: entered and blocking under `tq_count || listener_count`; the stale-timeout drop loop has the shape modelled by
+    `dropStale` -/
+theorem poll_phase_match :
+    Gen.Loop.pollGuard = pollGuardSpec ∧ Gen.Loop.pollGuard2 = pollGuardSpec ∧ Gen.Loop.staleLoop = staleLoopSpec :=
+  ⟨rfl, rfl, rfl⟩
+
+/-- root / unroot sites of event-loop operations (the release sites of the threaded-channel root are tree dependent and
+    summarised by `Gen.Loop.tchanUnrootCb`) -/
+theorem root_sites_match : Gen.Loop.rootSites.filter (fun x => !isTchanRelease x) = rootSpec := by decide
+
+/-! ## invariants -/
+
+/-- `listener_count` = suspended tasks + stream listeners + posted, undelivered events (+ NULL-callback events, whose
+    increment the POSIX self-pipe reader never undoes) + outstanding helper threads -/
+def CounterInv (s : St) : Prop :=
+  s.lc = (s.susp.length : Int) + s.lis + s.posted + s.postedNull + s.nullStuck + s.calls
+
+/-- every outstanding helper thread is an await, a fibre-less call or a process wait -/
+def CallInv (s : St) : Prop := s.awaits + s.noFiber + s.procWaits = s.calls
+
+/-- roots held by event-loop operations -/
+def RootInv (s : St) : Prop :=
+  s.roots = (s.lis : Int) + s.orphanStreams + s.awaits + 2 * s.procWaits + s.tchanPending + s.tchanLeaked
+
+def Inv (s : St) : Prop := CounterInv s ∧ CallInv s ∧ RootInv s
+
+theorem inv_init : Inv init := by
+  simp [Inv, CounterInv, CallInv, RootInv, init]
+
+private theorem len_erase {f : Fid} {l : List Fid} (h : f ∈ l) : ((l.erase f).length : Int) = (l.length : Int) - 1 := by
+  have h1 := List.length_erase_of_mem h
+  have h2 : 0 < l.length := List.length_pos_of_mem h
+  omega
+
+/-- each transition preserves all three invariants: every increment has exactly one matching decrement on every path -/
+theorem step_inv (cfg : Cfg) {s s' : St} {e : Ev} (hi : Inv s) (h : step cfg s e = some s') : Inv s' := by
+  obtain ⟨hc, hk, hr⟩ := hi
+  unfold CounterInv at hc
+  unfold CallInv at hk
+  unfold RootInv at hr
+  cases e with
+  | sched f => simp [step] at h; subst h; exact ⟨hc, hk, hr⟩
+  | pop f =>
+    simp only [step] at h
+    by_cases h1 : f ∈ s.runq
+    · rw [if_pos h1] at h
+      by_cases h2 : f ∈ s.susp
+      · rw [if_pos h2] at h
+        simp at h; subst h
+        have := len_erase h2
+        refine ⟨?_, hk, hr⟩
+        simp only [CounterInv]; omega
+      · rw [if_neg h2] at h
+        simp at h; subst h; exact ⟨hc, hk, hr⟩
+    · rw [if_neg h1] at h; simp at h
+  | ran f b =>
+    cases b with
+    | false => simp [step] at h; subst h; exact ⟨hc, hk, hr⟩
+    | true =>
+      simp only [step] at h
+      by_cases h2 : f ∈ s.susp
+      · rw [if_pos h2] at h; simp at h
+      · rw [if_neg h2] at h
+        simp at h; subst h
+        refine ⟨?_, hk, hr⟩
+        simp only [CounterInv, List.length_cons]; omega
+  | gcFiber f => simp [step] at h; subst h; exact ⟨hc, hk, hr⟩
+  | astart =>
+    simp [step] at h; subst h
+    refine ⟨?_, hk, ?_⟩
+    · simp only [CounterInv]; omega
+    · simp only [RootInv]; omega
+  | aend =>
+    simp only [step] at h
+    by_cases h1 : s.lis = 0
+    · rw [if_pos h1] at h; simp at h
+    · rw [if_neg h1] at h; simp at h; subst h
+      refine ⟨?_, hk, ?_⟩
+      · simp only [CounterInv]; omega
+      · simp only [RootInv]; omega
+  | gcListener =>
+    simp only [step] at h
+    by_cases h1 : s.lis = 0
+    · rw [if_pos h1] at h; simp at h
+    · rw [if_neg h1] at h; simp at h; subst h
+      refine ⟨?_, hk, ?_⟩
+      · simp only [CounterInv]; omega
+      · simp only [RootInv]; omega
+  | await =>
+    simp [step] at h; subst h
+    refine ⟨?_, ?_, ?_⟩
+    · simp only [CounterInv]; omega
+    · simp only [CallInv]; omega
+    · simp only [RootInv]; omega
+  | callNoFiber =>
+    simp [step] at h; subst h
+    refine ⟨?_, ?_, ?_⟩
+    · simp only [CounterInv]; omega
+    · simp only [CallInv]; omega
+    · simp only [RootInv]; omega
+  | procWait =>
+    simp [step] at h; subst h
+    refine ⟨?_, ?_, ?_⟩
+    · simp only [CounterInv]; omega
+    · simp only [CallInv]; omega
+    · simp only [RootInv]; omega
+  | deliverAwait =>
+    simp only [step] at h
+    by_cases h1 : s.awaits = 0 ∨ s.calls = 0
+    · rw [if_pos h1] at h; simp at h
+    · rw [if_neg h1] at h; simp at h; subst h
+      refine ⟨?_, ?_, ?_⟩
+      · simp only [CounterInv]; omega
+      · simp only [CallInv]; omega
+      · simp only [RootInv]; omega
+  | deliverNoFiber =>
+    simp only [step] at h
+    by_cases h1 : s.noFiber = 0 ∨ s.calls = 0
+    · rw [if_pos h1] at h; simp at h
+    · rw [if_neg h1] at h; simp at h; subst h
+      refine ⟨?_, ?_, ?_⟩
+      · simp only [CounterInv]; omega
+      · simp only [CallInv]; omega
+      · simp only [RootInv]; omega
+  | deliverProc =>
+    simp only [step] at h
+    by_cases h1 : s.procWaits = 0 ∨ s.calls = 0
+    · rw [if_pos h1] at h; simp at h
+    · rw [if_neg h1] at h; simp at h; subst h
+      refine ⟨?_, ?_, ?_⟩
+      · simp only [CounterInv]; omega
+      · simp only [CallInv]; omega
+      · simp only [RootInv]; omega
+  | post b =>
+    cases b with
+    | false =>
+      simp [step] at h; subst h
+      refine ⟨?_, hk, hr⟩
+      simp only [CounterInv]; omega
+    | true =>
+      simp [step] at h; subst h
+      refine ⟨?_, hk, hr⟩
+      simp only [CounterInv]; omega
+  | deliverPosted =>
+    simp only [step] at h
+    by_cases h1 : s.posted = 0
+    · rw [if_pos h1] at h; simp at h
+    · rw [if_neg h1] at h; simp at h; subst h
+      refine ⟨?_, hk, hr⟩
+      simp only [CounterInv]; omega
+  | deliverNull =>
+    simp only [step] at h
+    by_cases h1 : s.postedNull = 0
+    · rw [if_pos h1] at h; simp at h
+    · rw [if_neg h1] at h; simp at h; subst h
+      refine ⟨?_, hk, hr⟩
+      simp only [CounterInv]; omega
+  | tchanPend =>
+    simp [step] at h; subst h
+    refine ⟨hc, hk, ?_⟩
+    simp only [RootInv]; omega
+  | deliverChan =>
+    simp only [step] at h
+    by_cases h1 : s.posted = 0 ∨ s.tchanPending = 0
+    · rw [if_pos h1] at h; simp at h
+    · rw [if_neg h1] at h
+      by_cases h2 : cfg.tchanUnroot = true
+      · rw [if_pos h2] at h; simp at h; subst h
+        refine ⟨?_, hk, ?_⟩
+        · simp only [CounterInv]; omega
+        · simp only [RootInv]; omega
+      · rw [if_neg h2] at h; simp at h; subst h
+        refine ⟨?_, hk, ?_⟩
+        · simp only [CounterInv]; omega
+        · simp only [RootInv]; omega
+  | tchanDirect =>
+    simp only [step] at h
+    by_cases h1 : s.tchanPending = 0
+    · rw [if_pos h1] at h; simp at h
+    · rw [if_neg h1] at h; simp at h; subst h
+      refine ⟨hc, hk, ?_⟩
+      simp only [RootInv]; omega
+  | tadd t => simp [step] at h; subst h; exact ⟨hc, hk, hr⟩
+  | tpop t =>
+    simp only [step] at h
+    by_cases h1 : t ∈ s.timers
+    · rw [if_pos h1] at h; simp at h; subst h; exact ⟨hc, hk, hr⟩
+    · rw [if_neg h1] at h; simp at h
+
+theorem run_inv (cfg : Cfg) : ∀ (evs : List Ev) {s s' : St}, Inv s → run cfg s evs = some s' → Inv s'
+  | [], s, s', hi, h => by simp [run] at h; subst h; exact hi
+  | e :: es, s, s', hi, h => by
+    simp only [run] at h
+    cases hs : step cfg s e with
+    | none => rw [hs] at h; simp at h
+    | some s1 =>
+      rw [hs] at h
+      exact run_inv cfg es (step_inv cfg hi hs) h
+
+/-- ★ the pending-work counter counts exactly what is outstanding, after every event sequence from the start of the
+    program (all schedules, cancel / close / error / GC paths included) -/
+theorem listener_count_inv (cfg : Cfg) (evs : List Ev) {s : St} (h : run cfg init evs = some s) :
+    s.lc = (s.susp.length : Int) + s.lis + s.posted + s.postedNull + s.nullStuck + s.calls :=
+  (run_inv cfg evs inv_init h).1
+
+private theorem loopDone_iff (s : St) : loopDone s = true ↔ s.runq = [] ∧ s.timers = [] ∧ s.lc = 0 := by
+  unfold loopDone
+  cases hq : s.runq <;> cases ht : s.timers <;> simp
+
+/-- ★ the loop does not exit while anything is outstanding: a suspended task, a stream listener, an undelivered event, a
+    helper thread (ev/thread, os/proc-wait, …), a timer or a runnable task -/
+theorem no_premature_exit (cfg : Cfg) (evs : List Ev) {s : St} (h : run cfg init evs = some s) (hd : loopDone s = true) :
+    s.runq = [] ∧ s.timers = [] ∧ s.susp = [] ∧ s.lis = 0 ∧ s.posted = 0 ∧ s.postedNull = 0 ∧ s.calls = 0 ∧
+      s.awaits = 0 ∧ s.procWaits = 0 := by
+  have hi := run_inv cfg evs inv_init h
+  obtain ⟨hc, hk, _⟩ := hi
+  unfold CounterInv at hc
+  unfold CallInv at hk
+  obtain ⟨hq, ht, hl⟩ := (loopDone_iff s).1 hd
+  have hlen : s.susp.length = 0 := by omega
+  refine ⟨hq, ht, List.eq_nil_of_length_eq_zero hlen, ?_, ?_, ?_, ?_, ?_, ?_⟩ <;> omega
+
+/-- ★ the loop does not hang once everything has finished — provided no NULL-callback event was ever posted -/
+theorem no_hang_when_idle (cfg : Cfg) (evs : List Ev) {s : St} (h : run cfg init evs = some s) (hidle : Idle s)
+    (hnull : s.nullStuck = 0) : loopDone s = true := by
+  have hc := (run_inv cfg evs inv_init h).1
+  unfold CounterInv at hc
+  obtain ⟨hq, ht, ho⟩ := hidle
+  unfold outstanding at ho
+  apply (loopDone_iff s).2
+  refine ⟨hq, ht, ?_⟩
+  omega
+
+/-- exact characterisation: the loop is done iff idle and no NULL-callback event has been swallowed -/
+theorem loopDone_iff_idle (cfg : Cfg) (evs : List Ev) {s : St} (h : run cfg init evs = some s) :
+    loopDone s = true ↔ (Idle s ∧ s.nullStuck = 0) := by
+  constructor
+  · intro hd
+    have hc := (run_inv cfg evs inv_init h).1
+    unfold CounterInv at hc
+    obtain ⟨hq, ht, hl⟩ := (loopDone_iff s).1 hd
+    refine ⟨⟨hq, ht, ?_⟩, ?_⟩
+    · unfold outstanding; omega
+    · omega
+  · intro ⟨hi, hn⟩
+    exact no_hang_when_idle cfg evs h hi hn
+
+/-- what the code really counts: an event posted with a NULL callback (`janet_loop1_interrupt`) is never un-counted by the
+    POSIX self-pipe reader, so after it the loop can no longer finish although nothing is outstanding -/
+theorem null_event_keeps_loop_alive (cfg : Cfg) :
+    ∃ s, run cfg init [.post true, .deliverNull] = some s ∧ Idle s ∧ loopDone s = false := by
+  refine ⟨{ init with lc := 1, nullStuck := 1 }, ?_, ?_, ?_⟩
+  · simp [run, step, init]
+  · simp [Idle, outstanding, init]
+  · simp [loopDone, init]
+
+/-- a suspended task that is garbage collected (deadlocked on an unreachable channel) keeps its count for ever: the collector
+    only undoes the count of fibers with `ev_state` -/
+theorem collected_suspended_task_keeps_count (cfg : Cfg) :
+    ∃ s, run cfg init [.sched 1, .pop 1, .ran 1 true, .gcFiber 1] = some s ∧ s.lc = 1 ∧ loopDone s = false := by
+  refine ⟨{ init with lc := 1, susp := [1] }, ?_, rfl, ?_⟩
+  · simp [run, step, init]
+  · simp [loopDone, init]
+
+/-! ## stale timers -/
+
+theorem dropStale_all_stale (stale : Timer → Bool) : ∀ ts : List Timer, (∀ t ∈ ts, stale t = true) → dropStale stale ts = []
+  | [], _ => rfl
+  | t :: ts, h => by
+    have ht : stale t = true := h t (by simp)
+    simp only [dropStale, ht, if_true]
+    exact dropStale_all_stale stale ts (fun u hu => h u (by simp [hu]))
+
+theorem dropStale_head_live (stale : Timer → Bool) : ∀ ts : List Timer, ∀ t rest, dropStale stale ts = t :: rest → stale t = false
+  | [], t, rest, h => by simp [dropStale] at h
+  | u :: us, t, rest, h => by
+    by_cases hu : stale u = true
+    · simp only [dropStale, hu, if_true] at h
+      exact dropStale_head_live stale us t rest h
+    · simp only [dropStale, hu] at h
+      simp at h
+      obtain ⟨h1, _⟩ := h
+      subst h1
+      simpa using hu
+
+/-- dropping never invents timers and keeps the live ones -/
+theorem dropStale_sublist (stale : Timer → Bool) : ∀ ts : List Timer, ∀ t, t ∈ dropStale stale ts → t ∈ ts
+  | [], t, h => by simp [dropStale] at h
+  | u :: us, t, h => by
+    by_cases hu : stale u = true
+    · simp only [dropStale, hu, if_true] at h
+      exact List.mem_cons_of_mem u (dropStale_sublist stale us t h)
+    · simp only [dropStale, hu] at h
+      simpa using h
+
+/-- ★ stale timers cannot keep the loop alive: when only stale timeouts remain (their fibers were resumed, cancelled or are
+    dead) and nothing else is outstanding, the poll phase empties the heap, does not block in the kernel, and the loop is
+    done — whatever the timers' deadlines are -/
+theorem stale_timers_cannot_keep_loop_alive (stale : Timer → Bool) (s : St)
+    (hst : ∀ t ∈ s.timers, stale t = true) (hq : s.runq = []) (hl : s.lc = 0) :
+    (pollPrelude stale s).timers = [] ∧ willPoll (pollPrelude stale s) = false ∧ loopDone (pollPrelude stale s) = true := by
+  have hd := dropStale_all_stale stale s.timers hst
+  unfold pollPrelude
+  cases ht : s.timers with
+  | nil =>
+    simp [ht, hl, willPoll, loopDone, hq]
+  | cons t ts =>
+    rw [ht] at hd
+    simp [hd, hl, willPoll, loopDone, hq]
+
+/-- the poll phase changes nothing but the timer heap -/
+theorem pollPrelude_counters (stale : Timer → Bool) (s : St) :
+    (pollPrelude stale s).lc = s.lc ∧ (pollPrelude stale s).runq = s.runq ∧ (pollPrelude stale s).susp = s.susp := by
+  unfold pollPrelude
+  by_cases h : (!s.timers.isEmpty || s.lc != 0) = true
+  · simp [h]
+  · simp [h]
+
+/-! ## gc roots -/
+
+/-- ★ every gcroot made by an operation has a matching gcunroot on every completion path: once nothing is outstanding,
+    the only roots left are those of fibers still queued on threaded channels, of consumed queue entries whose root the
+    tree does not release, and of streams orphaned by the collector's path -/
+theorem roots_balanced (cfg : Cfg) (evs : List Ev) {s : St} (h : run cfg init evs = some s)
+    (hl : s.lis = 0) (hcalls : s.calls = 0) :
+    s.roots = (s.tchanPending : Int) + s.tchanLeaked + s.orphanStreams := by
+  obtain ⟨_, hk, hr⟩ := run_inv cfg evs inv_init h
+  unfold CallInv at hk
+  unfold RootInv at hr
+  omega
+
+/-- no consumed entry keeps its root when the tree releases it in the callback -/
+theorem tchanLeaked_zero (cfg : Cfg) (hcfg : cfg.tchanUnroot = true) :
+    ∀ (evs : List Ev) {s s' : St}, s.tchanLeaked = 0 → run cfg s evs = some s' → s'.tchanLeaked = 0
+  | [], s, s', h0, h => by simp [run] at h; subst h; exact h0
+  | e :: es, s, s', h0, h => by
+    simp only [run] at h
+    cases hs : step cfg s e with
+    | none => rw [hs] at h; simp at h
+    | some s1 =>
+      rw [hs] at h
+      refine tchanLeaked_zero cfg hcfg es ?_ h
+      cases e <;> simp only [step] at hs
+      case deliverChan =>
+        by_cases h1 : s.posted = 0 ∨ s.tchanPending = 0
+        · rw [if_pos h1] at hs; simp at hs
+        · rw [if_neg h1, if_pos hcfg] at hs; simp at hs; subst hs; exact h0
+      case pop f =>
+        by_cases h1 : f ∈ s.runq
+        · rw [if_pos h1] at hs
+          by_cases h2 : f ∈ s.susp
+          · rw [if_pos h2] at hs; simp at hs; subst hs; exact h0
+          · rw [if_neg h2] at hs; simp at hs; subst hs; exact h0
+        · rw [if_neg h1] at hs; simp at hs
+      case ran f b =>
+        cases b
+        · simp at hs; subst hs; exact h0
+        · by_cases h2 : f ∈ s.susp
+          · simp [h2] at hs
+          · simp [h2] at hs; subst hs; exact h0
+      case post b => cases b <;> (simp at hs; subst hs; exact h0)
+      all_goals first
+        | (simp at hs; subst hs; exact h0)
+        | (split at hs <;> simp at hs; subst hs; exact h0)
+
+/-- ★ with the release in `janet_thread_chan_cb`: when the program is idle and no queue entry is left, no root is left
+    (streams orphaned by the collector aside) -/
+theorem roots_balanced_released (cfg : Cfg) (hcfg : cfg.tchanUnroot = true) (evs : List Ev) {s : St}
+    (h : run cfg init evs = some s) (hl : s.lis = 0) (hcalls : s.calls = 0) (hp : s.tchanPending = 0)
+    (ho : s.orphanStreams = 0) : s.roots = 0 := by
+  have h1 := roots_balanced cfg evs h hl hcalls
+  have h2 := tchanLeaked_zero cfg hcfg evs (s := init) rfl h
+  omega
+
+/-- without it (the pinned tree: `Gen.Loop.tchanUnrootCb = false`) one blocking take on a threaded channel pins the fiber
+    for ever: the program is idle, nothing is queued, yet a root remains -/
+theorem tchan_root_never_released (cfg : Cfg) (hcfg : cfg.tchanUnroot = false) :
+    ∃ s, run cfg init [.tchanPend, .post false, .deliverChan] = some s ∧ Idle s ∧ s.tchanPending = 0 ∧ s.roots = 1 := by
+  refine ⟨{ init with roots := 1, tchanLeaked := 1 }, ?_, ?_, rfl, rfl⟩
+  · simp [run, step, init, hcfg]
+  · simp [Idle, outstanding, init]
+
+/-- the collector's path for a fiber that still has `ev_state` undoes the count but not the stream root -/
+theorem gc_listener_leaves_stream_root (cfg : Cfg) :
+    ∃ s, run cfg init [.astart, .gcListener] = some s ∧ s.lc = 0 ∧ s.lis = 0 ∧ s.roots = 1 := by
+  refine ⟨{ init with roots := 1, orphanStreams := 1 }, ?_, rfl, rfl, rfl⟩
+  simp [run, step, init]
+
+/-! ## non-vacuity: a non-trivial reachable state (task suspended on a read, helper thread and process wait outstanding,
+a timer armed, an event in the pipe) and a complete run back to idle -/
+
+/-- summary of a state for the examples: (listener_count, outstanding, loop done?, idle?, roots) -/
+def summary (s : St) : Int × Nat × Bool × Bool × Int :=
+  (s.lc, outstanding s, loopDone s, decide (s.runq = [] ∧ s.timers = [] ∧ outstanding s = 0), s.roots)
+
+example : (run Cfg.ofGen init
+    [.sched 1, .pop 1, .astart, .tadd ⟨1, false⟩, .ran 1 true, .sched 2, .pop 2, .await, .ran 2 true,
+     .sched 3, .pop 3, .procWait, .ran 3 true, .post false]).map summary = some (7, 7, false, false, 4) := by decide
+
+example : (run Cfg.ofGen init
+    [.sched 1, .pop 1, .astart, .tadd ⟨1, false⟩, .ran 1 true, .sched 2, .pop 2, .await, .ran 2 true,
+     .deliverAwait, .sched 2, .pop 2, .ran 2 false, .aend, .sched 1, .tpop ⟨1, false⟩, .pop 1, .ran 1 false]).map summary
+    = some (0, 0, true, true, 0) := by decide
+
+end JanetModel.Props.C20
